@@ -116,6 +116,11 @@ structure Callback where
   args : List Ty
   ret : Ty
   fnRet : Ty
+  /-- the entry point is a `pub fn` / an `unsafe fn`: only `pub`, safe ones can be called by client
+  code free of `unsafe`; private helpers that pass a callback on are judged where they are used
+  (`Table.brandSiteOk`) -/
+  fnPub : Bool := true
+  fnUnsafe : Bool := false
   deriving Repr, Inhabited
 
 structure CollectImpl where
@@ -187,7 +192,36 @@ structure MethodSig where
   trait : String := ""
   selfArgs : List Ty
   params : List Ty
+  ret : Ty := .tuple []
   bounded : List String
+  deriving Repr, Inhabited
+
+/-- A place where a brand is created out of nothing: `kind = "source-call"` – a call of a brand
+source (an `unsafe fn` returning a `Mutation` / `Finalization` whose brand the caller picks);
+`"cast"` – in `arena.rs`, a reference made by dereferencing a pointer cast (`&*(e as *const _)`);
+`"source-mention"` – a brand source named without being called. -/
+structure BrandSite where
+  file : String
+  fn_ : String
+  fnLast : String
+  fnUnsafe : Bool
+  fnPub : Bool
+  kind : String
+  text : String
+  deriving Repr, Inhabited
+
+/-- What a boolean function of a re-branding file compares at the end of its body: `cmp` is
+`"=="`, `"ptr::eq"` or `""` (no comparison); the `…Deps` are the parameters each side is computed
+from (through `let` bindings). -/
+structure IdentityFn where
+  file : String
+  name : String
+  qual : String
+  params : List String
+  cmp : String
+  lhsDeps : List String
+  rhsDeps : List String
+  retBool : Bool
   deriving Repr, Inhabited
 
 structure AutoImpl where
@@ -206,6 +240,9 @@ structure Table where
   transmutes : List Transmute
   callSites : List CallSite := []
   methods : List MethodSig := []
+  brandSites : List BrandSite := []
+  brandSources : List String := []
+  identityFns : List IdentityFn := []
   autoImpls : List AutoImpl
   /-- items the translator could not classify (fail closed: must be empty) -/
   unclassified : List String
@@ -465,7 +502,11 @@ end
 /-- Variance of a parameter of a struct / enum: glb over its fields, each at covariant ambient. -/
 def fieldsVar (look : VarOracle) (tgt : Target) : List Field → Variance
   | [] => .bi
-  | f :: fs => (varTy look tgt .co f.ty).glb (fieldsVar look tgt fs)
+  | f :: fs =>
+      -- a field under `#[cfg(..)]` exists in some configurations only: it must not be what an
+      -- "invariant" answer rests on, so it is left out (the answer can only get larger)
+      if f.cfg == "" then (varTy look tgt .co f.ty).glb (fieldsVar look tgt fs)
+      else fieldsVar look tgt fs
 
 /-- Kleene iteration from the top element: level 0 answers `bi` everywhere, level `k+1` evaluates
 every definition with level `k` for nested ADTs.  An ADT that is not in the table is external and
@@ -547,7 +588,11 @@ end
 
 def fieldsAuto (look : AutoOracle) (env : List (String × Auto)) : List Field → Auto
   | [] => .top
-  | f :: fs => (autoTy look env f.ty).and (fieldsAuto look env fs)
+  | f :: fs =>
+      -- `#[cfg(..)]` fields are left out, as in `fieldsVar`: a "not Send" answer must hold in
+      -- every configuration
+      if f.cfg == "" then (autoTy look env f.ty).and (fieldsAuto look env fs)
+      else fieldsAuto look env fs
 
 def Table.hasAutoImpl (tbl : Table) (trait n : String) (negative : Bool) : Bool :=
   tbl.autoImpls.any (fun i => i.trait == trait && i.target == n && i.negative == negative)
@@ -740,9 +785,25 @@ A safe function must do the check itself.  `blame` returns the functions in whic
 missing (empty = covered); the recursion follows the call graph upwards with fuel `cgFuel` (deeper
 chains are not covered: fail closed). -/
 
-/-- Is the value `base` identity-checked by one of the enclosing `if`s? -/
-def guardedBy (guards : List Guard) (base : String) : Bool :=
-  base != "" && guards.any (fun g => g.thenBranch && g.cond == "self.contains(" ++ base ++ ")")
+/-- The identity-check function really is one: it returns `bool`, its body ends in a comparison
+(`==` / `ptr::eq`), one side of which is computed from `self` alone and the other from the handle
+(its first non-`self` parameter) alone. -/
+def IdentityFn.ok (f : IdentityFn) : Bool :=
+  f.retBool && f.cmp != "" &&
+    match f.params with
+    | ["self", h] =>
+        (f.lhsDeps == ["self"] && f.rhsDeps == [h]) || (f.lhsDeps == [h] && f.rhsDeps == ["self"])
+    | _ => false
+
+/-- `contains` exists in the re-branding file and every function of that name there is a genuine
+identity check. -/
+def identityCheckOk (fns : List IdentityFn) : Bool :=
+  fns.any (fun f => f.name == "contains") && (fns.filter (fun f => f.name == "contains")).all IdentityFn.ok
+
+/-- Is the value `base` identity-checked by one of the enclosing `if`s (`idOk`: what `contains`
+does was itself checked, `identityCheckOk`)? -/
+def guardedBy (idOk : Bool) (guards : List Guard) (base : String) : Bool :=
+  idOk && base != "" && guards.any (fun g => g.thenBranch && g.cond == "self.contains(" ++ base ++ ")")
 
 def indexOf? (xs : List String) (x : String) : Option Nat :=
   match xs with
@@ -751,13 +812,14 @@ def indexOf? (xs : List String) (x : String) : Option Nat :=
 
 /-- Functions in which an identity check of `base` is missing, for a site inside function
 `fnQual` (last segment `fnLast`, `unsafe` / `pub` flags, parameter names) under `guards`. -/
-def blame (sites : List CallSite) : Nat → (fnQual fnLast : String) → (fnUnsafe fnPub : Bool) →
+def blame (idOk : Bool) (sites : List CallSite) : Nat → (fnQual fnLast : String) → (fnUnsafe fnPub : Bool) →
     (fnParams : List String) → (base : String) → (guards : List Guard) → List String
-  | 0, fnQual, _, _, _, _, base, guards => if guardedBy guards base then [] else [fnQual]
-  | fuel + 1, fnQual, fnLast, fnUnsafe, fnPub, fnParams, base, guards =>
-      if guardedBy guards base then []
+  | 0, fnQual, _, _, _, _, base, guards => if guardedBy idOk guards base then [] else [fnQual]
+  | fuel + 1, fnQual, fnLast, fnUnsafe, _fnPub, fnParams, base, guards =>
+      if guardedBy idOk guards base then []
       else if !fnUnsafe then [fnQual]
-      else if fnPub then []
+      -- an `unsafe fn`, public or not: every call site *inside the crate* must be covered; only
+      -- callers outside the crate are discharged by the function's unsafe contract
       else match indexOf? fnParams base with
         | none => [fnQual]
         | some i =>
@@ -767,7 +829,7 @@ def blame (sites : List CallSite) : Nat → (fnQual fnLast : String) → (fnUnsa
               | none => [cs.caller]
               | some b =>
                   if b == "" then [cs.caller]
-                  else blame sites fuel cs.caller cs.callerLast cs.callerUnsafe cs.callerPub
+                  else blame idOk sites fuel cs.caller cs.callerLast cs.callerUnsafe cs.callerPub
                          cs.callerParams b cs.guards)
 
 /-- Depth to which helper chains are followed. -/
@@ -776,7 +838,8 @@ def cgFuel : Nat := 6
 /-- Functions through which the re-branding site `t` is reachable without an identity check. -/
 def Table.blameOf (tbl : Table) (t : Transmute) : List String :=
   if t.introduces.isEmpty || t.rawOnly then []
-  else blame tbl.callSites cgFuel t.fn_ t.fnLast t.fnUnsafe t.fnPub t.fnParams t.operandBase t.guards
+  else blame (identityCheckOk tbl.identityFns) tbl.callSites cgFuel t.fn_ t.fnLast t.fnUnsafe t.fnPub
+         t.fnParams t.operandBase t.guards
 
 /-- The re-branding site is covered (see above); transmutes that introduce no lifetime, or whose
 result only exists as a returned raw pointer, need no cover. -/
@@ -850,7 +913,7 @@ end
 
 def fieldsHold (look : HoldOracle) (p : String) : List Field → List Hold
   | [] => []
-  | f :: fs => holdsTy look p f.ty ++ fieldsHold look p fs
+  | f :: fs => if f.cfg == "" then holdsTy look p f.ty ++ fieldsHold look p fs else fieldsHold look p fs
 
 /-- Level 0 and ADTs outside the table (external crates) own their arguments. -/
 def adtHoldOracle (tbl : Table) : Nat → HoldOracle
@@ -868,10 +931,46 @@ def Table.holdKinds (tbl : Table) (n p : String) : List Hold :=
   | none => []
   | some d => fieldsHold (adtHoldOracle tbl fuel) p d.fields
 
-/-- Holds `p` behind a raw pointer or in a `MaybeUninit`, and nowhere by value. -/
+mutual
+/-- Does the type contain a raw pointer / `NonNull` at all (to anything: `NonNull<u8>`,
+`GcPtr<()>`)? -/
+def tyHasRaw (look : String → Bool) : Ty → Bool
+  | .prim _ => false
+  | .param _ => false
+  | .ref _ t => tyHasRaw look t
+  | .refMut _ t => tyHasRaw look t
+  | .rawConst _ => true
+  | .rawMut _ => true
+  | .std c ts => c == .nonNull || (c != .phantomData && tysHaveRaw look ts)
+  | .tuple ts => tysHaveRaw look ts
+  | .slice t => tyHasRaw look t
+  | .proj _ _ _ _ _ => false
+  | .fnPtr _ _ _ => false
+  | .adt n _ ts => look n || tysHaveRaw look ts
+  | .unclassified _ => false
+def tysHaveRaw (look : String → Bool) : List Ty → Bool
+  | [] => false
+  | t :: ts => tyHasRaw look t || tysHaveRaw look ts
+end
+
+def adtHasRawOracle (tbl : Table) : Nat → String → Bool
+  | 0 => fun _ => false
+  | fuel + 1 => fun n =>
+      match tbl.find n with
+      | none => false
+      | some d => d.fields.any (fun f => f.cfg == "" && tyHasRaw (adtHasRawOracle tbl fuel) f.ty)
+
+/-- The type has a field that is (or contains) a raw pointer, typed or erased. -/
+def Table.hasRawField (tbl : Table) (n : String) : Bool := adtHasRawOracle tbl fuel n
+
+/-- Holds `p` nowhere by value, and either behind a raw pointer / in a `MaybeUninit`, or only as a
+marker (`PhantomData`, `fn` pointer) next to a raw – possibly type-erased – pointer field
+(`NonNull<u8>` + `PhantomData<T>`: the marker is the only thing that types the pointee). -/
 def Table.indirectOnly (tbl : Table) (n p : String) : Bool :=
   let ks := tbl.holdKinds n p
-  (ks.contains .raw || ks.contains .uninit) && !ks.contains .owned
+  !ks.contains .owned &&
+    (ks.contains .raw || ks.contains .uninit ||
+      ((ks.contains .phantom || ks.contains .fnPtr) && tbl.hasRawField n))
 
 /-- Does the method hand in a value of impl parameter `x` (by value or behind a reference, not
 inside another handle)? -/
@@ -894,13 +993,59 @@ def enumFrom {α : Type} : Nat → List α → List (Nat × α)
   | _, [] => []
   | i, x :: xs => (i, x) :: enumFrom (i + 1) xs
 
-/-- The rows of the builder rule, derived from the table: every (public ADT, type parameter) that
-is held only indirectly and has an unbounded safe store method. -/
-def Table.builderRows (tbl : Table) : List (String × String) :=
+/-- Rows with a store method of their own. -/
+def Table.builderBaseRows (tbl : Table) : List (String × String) :=
   (tbl.adts.filter (fun d => d.vis == .pub)).flatMap (fun d =>
     ((enumFrom 0 d.tys).filter (fun ip =>
         tbl.indirectOnly d.name ip.2 && !(tbl.storeMethods d.name ip.1).isEmpty)).map
       (fun ip => (d.name, ip.2)))
+
+/-- The ADT a method returns (looking through `Option` / `Result`). -/
+def retAdt : Ty → Option (String × List Ty)
+  | .adt n _ ts => some (n, ts)
+  | .std .option [.adt n _ ts] => some (n, ts)
+  | .std .result [.adt n _ ts, _] => some (n, ts)
+  | _ => none
+
+/-- Some safe method of `n` turns it into another type that is already a row, carrying the `i`-th
+parameter along unbounded (`write_header : …Builder<H, E> → …SliceBuilder<H, E>`): what can be stored
+through the result can be stored through `n`. -/
+def Table.forwardsTo (tbl : Table) (rows : List (String × String)) (n : String) (i : Nat) : Bool :=
+  tbl.methods.any (fun m => m.adt == n &&
+    match m.selfArgs[i]?, retAdt m.ret with
+    | some a, some (y, ys) =>
+        (match tbl.find y with
+         | none => false
+         | some dy =>
+            (enumFrom 0 ys).any (fun (jt : Nat × Ty) =>
+              match dy.tys[jt.1]? with
+              | none => false
+              | some q => rows.contains (y, q) && !(y == n && jt.1 == i) &&
+                  a.tyParams.any (fun x => jt.2.tyParams.contains x && !m.bounded.contains x)))
+    | _, _ => false)
+
+def Table.builderRowsIter (tbl : Table) : Nat → List (String × String)
+  | 0 => tbl.builderBaseRows
+  | k + 1 =>
+      let rows := tbl.builderRowsIter k
+      rows ++ (tbl.adts.filter (fun d => d.vis == .pub)).flatMap (fun d =>
+        ((enumFrom 0 d.tys).filter (fun ip =>
+            !rows.contains (d.name, ip.2) && tbl.indirectOnly d.name ip.2 &&
+              tbl.forwardsTo rows d.name ip.1)).map (fun ip => (d.name, ip.2)))
+
+/-- The rows of the builder rule, derived from the table: every (public ADT, type parameter) that
+is held only indirectly and has an unbounded safe store method – of its own, or (closed under, three
+rounds) through a safe method that returns another such type carrying the parameter. -/
+def Table.builderRows (tbl : Table) : List (String × String) := tbl.builderRowsIter 3
+
+/-- Lower bound for `builderRows`: the hand-written list that preceded the derivation (defect D4
+was an unlisted case of it).  All six pairs are derived: four have a store method of their own, and
+`(GcSliceWithHeaderBuilder, E)`, `(GcSliceWithHeaderSliceBuilder, H)` are reached through the closure
+(`write_header` returns the slice builder; finishing returns a `Gc` of the slice type). -/
+def requiredBuilderRows : List (String × String) :=
+  [("GcBuilder", "T"), ("GcSliceBuilder", "E"), ("GcSliceWithHeaderBuilder", "H"),
+   ("GcSliceWithHeaderBuilder", "E"), ("GcSliceWithHeaderSliceBuilder", "H"),
+   ("GcSliceWithHeaderSliceBuilder", "E")]
 
 /-- The store methods behind a row (for explanations). -/
 def Table.builderRowMethods (tbl : Table) (r : String × String) : List String :=
@@ -965,6 +1110,41 @@ def Table.writeTransparent (tbl : Table) : Bool :=
       !tbl.autoImpls.any (fun i => i.target == "Write")
   | none => false
 
+/-- Entry points client code free of `unsafe` can call. -/
+def Table.clientCallbacks (tbl : Table) : List Callback :=
+  tbl.callbacks.filter (fun cb => cb.fnPub && !cb.fnUnsafe)
+
+/-- Functions that are client entry points with a callback, all of whose callbacks pass
+`Callback.ok`: inside them a freshly created brand is handed to a `for<'gc>` callback only. -/
+def Table.okEntryFns (tbl : Table) : List String :=
+  (tbl.clientCallbacks.filter (fun cb =>
+      (tbl.callbacks.filter (fun c => c.name == cb.name)).all Callback.ok)).map (·.name)
+
+/-- Functions through which a brand-creating site is reachable *without* ending in an entry point
+of `okEntryFns`: the site's own function if it is one ⇒ none; a safe `pub fn` that is not ⇒ itself;
+a private or `unsafe` function ⇒ whatever its in-crate callers yield (callers outside the crate are
+discharged by the unsafe contract). -/
+def srcBlame (sites : List CallSite) (okFns : List String) : Nat → (fnQual fnLast : String) →
+    (fnUnsafe fnPub : Bool) → List String
+  | 0, q, _, _, _ => if okFns.contains q then [] else [q]
+  | fuel + 1, q, l, u, p =>
+      if okFns.contains q then []
+      else if p && !u then [q]
+      else (sites.filter (fun cs => cs.callee == l)).flatMap (fun cs =>
+        if !cs.isCall then [cs.caller ++ " (mentions " ++ l ++ " without calling it)"]
+        else srcBlame sites okFns fuel cs.caller cs.callerLast cs.callerUnsafe cs.callerPub)
+
+def Table.brandSiteBlame (tbl : Table) (b : BrandSite) : List String :=
+  if b.kind == "source-mention" then [b.fn_ ++ " (names a brand source without calling it)"]
+  else srcBlame tbl.callSites tbl.okEntryFns cgFuel b.fn_ b.fnLast b.fnUnsafe b.fnPub
+
+/-- The brand created at the site can only end up in a `for<'gc>` callback. -/
+def Table.brandSiteOk (tbl : Table) (b : BrandSite) : Bool := (tbl.brandSiteBlame b).isEmpty
+
+def Table.violBrandSites (tbl : Table) : List String :=
+  (tbl.brandSites.filter (fun b => !tbl.brandSiteOk b)).map
+    (fun b => b.fn_ ++ ": " ++ b.text ++ " reachable from " ++ ", ".intercalate (tbl.brandSiteBlame b))
+
 def Table.callbackNamed (tbl : Table) (n : String) : Option Callback :=
   tbl.callbacks.find? (fun cb => cb.name == n)
 
@@ -981,7 +1161,7 @@ def Table.violNotSendSync (tbl : Table) : List String :=
 
 def Table.violCallbacks (tbl : Table) : List String :=
   (requiredCallbacks.filter (fun n => (tbl.callbackNamed n).isNone)).map (· ++ " (missing)") ++
-    (tbl.callbacks.filter (fun cb => !cb.ok)).map (·.name)
+    (tbl.clientCallbacks.filter (fun cb => !cb.ok)).map (·.name)
 
 def Table.violCollect (tbl : Table) : List String :=
   (tbl.collectImpls.filter (fun ci => ci.mustBeStatic && !ci.staticOk)).map
@@ -998,8 +1178,10 @@ def Table.rebrandSites (tbl : Table) : List Transmute :=
   (tbl.transmutesIn "dynamic_roots.rs").filter (fun t => !t.introduces.isEmpty && !t.rawOnly)
 
 def Table.identityChecks (tbl : Table) : Nat :=
-  ((tbl.transmutesIn "dynamic_roots.rs").filter (fun t => !t.introduces.isEmpty && t.guardedByContains)).length +
-  (tbl.callSites.filter (fun cs => cs.isCall && cs.argBases.any (fun b => guardedBy cs.guards b))).length
+  ((tbl.transmutesIn "dynamic_roots.rs").filter (fun t => !t.introduces.isEmpty &&
+      guardedBy (identityCheckOk tbl.identityFns) t.guards t.operandBase)).length +
+  (tbl.callSites.filter (fun cs => cs.isCall && cs.argBases.any (fun b =>
+      guardedBy (identityCheckOk tbl.identityFns) cs.guards b))).length
 
 def Table.violAutoImpls (tbl : Table) : List String :=
   (tbl.autoImpls.filter (fun i => !i.negative)).map
